@@ -508,9 +508,16 @@ func (b *Builder) ensureRemotePackage(ctx context.Context, pkgAddr sourceaddrs.R
 	// that no other process is concurrently modifying our temporary directory.
 	// Source bundle building should only occur on hosts that are trusted by
 	// whoever will ultimately be using the generated bundle.
-	err = filepath.Walk(workDir, packagePrepareWalkFn(workDir, ignoreRules))
+	var excludedDirs []string
+	err = filepath.Walk(workDir, packagePrepareWalkFn(workDir, ignoreRules, &excludedDirs))
 	if err != nil {
 		return "", fmt.Errorf("failed to prepare package directory: %#w", err)
+	}
+	// Excluded directories whose content had to be judged path by path are
+	// dropped if nothing in them was kept, innermost first. Remove refuses a
+	// directory that still has content, which is exactly what we want.
+	for i := len(excludedDirs) - 1; i >= 0; i-- {
+		_ = os.Remove(excludedDirs[i])
 	}
 
 	// If we got here then our tmpDir contains the final source code of a valid
@@ -653,7 +660,10 @@ type registryPackageVersion struct {
 	version versions.Version
 }
 
-func packagePrepareWalkFn(root string, ignoreRules *ignorefiles.Ruleset) filepath.WalkFunc {
+// Directories that match an exclusion rule but may still hold paths that a
+// later rule re-includes are appended to excludedDirs instead of being
+// removed; the caller removes those that end up empty.
+func packagePrepareWalkFn(root string, ignoreRules *ignorefiles.Ruleset, excludedDirs *[]string) filepath.WalkFunc {
 	return func(absPath string, info os.FileInfo, err error) error {
 		if err != nil {
 			return err
@@ -673,6 +683,11 @@ func packagePrepareWalkFn(root string, ignoreRules *ignorefiles.Ruleset) filepat
 			return fmt.Errorf("invalid .terraformignore rules: %#w", err)
 		}
 		if ignored.Excluded {
+			if info.IsDir() && !ignored.Dominating {
+				// Something below may be re-included: judge it path by path.
+				*excludedDirs = append(*excludedDirs, absPath)
+				return nil
+			}
 			err := os.RemoveAll(absPath)
 			if err != nil {
 				return fmt.Errorf("failed to remove ignored file %s: %s", relPath, err)
@@ -685,18 +700,21 @@ func packagePrepareWalkFn(root string, ignoreRules *ignorefiles.Ruleset) filepat
 		}
 
 		// For directories we also need to check with a path separator on the
-		// end, which ignores entire subtrees.
-		//
-		// TODO: What about exclusion rules that follow a matching directory?
-		// Example:
+		// end, which ignores entire subtrees, unless a rule that follows the
+		// matching one re-includes something below the directory, as in:
 		//   /logs
 		//   !/logs/production/*
+		// In that case the content is judged path by path.
 		if info.IsDir() {
 			ignored, err := ignoreRules.Excludes(relPath + string(os.PathSeparator))
 			if err != nil {
 				return fmt.Errorf("invalid .terraformignore rules: %#w", err)
 			}
 			if ignored.Excluded {
+				if !ignored.Dominating {
+					*excludedDirs = append(*excludedDirs, absPath)
+					return nil
+				}
 				err := os.RemoveAll(absPath)
 				if err != nil {
 					return fmt.Errorf("failed to remove ignored file %s: %s", relPath, err)
